@@ -59,7 +59,7 @@ func (this *zzCanaryMap) GetX(k int) int {
 		{Rule: "C10.paired", Sub: "zzCanaryMap"}, {Rule: "C10.guarded", Sub: "zzCanaryMap"}}}}
 }
 
-var c10PointOp = regexp.MustCompile(`^(Put|Add|Get|Contains|Remove|Clear|Size|Intersect|Unipoint)`)
+var c10PointOp = regexp.MustCompile(`^(Put|Add|Get|Contains|Remove|Clear|Size|Intersect|Unipoint|Sort)`)
 var c10NotPoint = regexp.MustCompile(`Capacity|Max|KeySet|KeyArray|ValueArray|Keys|Values|Entries|Iterator|NullValue`)
 
 func lockedTypes(p *core.Program, relPkgs []string) []*types.Named {
